@@ -200,9 +200,11 @@ type RuleFile struct {
 }
 
 // ruleVars are the variable parts of generated SecRule lines
-var ruleVars = []string{"ARGS", "ARGS", "REQUEST_COOKIES|!REQUEST_COOKIES:/__utm/|ARGS_NAMES|ARGS|XML:/*", "ARGS_NAMES|ARGS:/^json\\.\\d+$/", "REQUEST_HEADERS:User-Agent", "TX:/^old/", "ARGS:/%5Bid%5D$/|ARGS:/%s/", "REQUEST_COOKIES:/^%24Version$/"}
+var ruleVars = []string{"ARGS", "ARGS", "REQUEST_COOKIES|!REQUEST_COOKIES:/__utm/|ARGS_NAMES|ARGS|XML:/*", "ARGS_NAMES|ARGS:/^json\\.\\d+$/", "REQUEST_HEADERS:User-Agent", "TX:/^old/", "ARGS:/%5Bid%5D$/|ARGS:/%s/", "REQUEST_COOKIES:/^%24Version$/",
+	"REQUEST_COOKIES|!REQUEST_COOKIES:/__utm/|!REQUEST_COOKIES:/_pk_ref/|REQUEST_COOKIES_NAMES|ARGS_NAMES|ARGS|XML:/*|REQUEST_HEADERS:User-Agent|REQUEST_HEADERS:Referer"}
 
 type RulesOpts struct {
+	Compact       []int // per rule (cycled): 1 = a rule without chain is written on two lines (SecRule line + one action line)
 	MixedEOL      []int // per line (cycled): 1 = this line ends in CRLF although the file uses LF
 	CRLF          bool
 	NoFinalNL     bool
@@ -268,6 +270,10 @@ func renderRuleFile(rf *RuleFile, o RulesOpts, header string, commentFor func(i 
 			}
 			sb.WriteString(nl)
 			secNo++
+			if len(r.Ops) == 1 && len(o.Compact) > 0 && o.Compact[i%len(o.Compact)] == 1 {
+				sb.WriteString(ind + "    \"id:" + r.ID + ",phase:2,deny,msg:'compact'\"" + nl)
+				continue
+			}
 			if k == 0 && i < len(o.IDNotFirst) && o.IDNotFirst[i] == 1 {
 				sb.WriteString(ind + "    \"phase:2,id:" + r.ID + ",\\" + nl)
 			} else if k == 0 {
